@@ -37,7 +37,7 @@ func synthLayout(c explore.Chooser) *prog.Program {
 		lc.Files = append(lc.Files, filepath.Join(d, name))
 		lc.Abs = append(lc.Abs, form == 1 || (form == 2 && i%2 == 1))
 	}
-	lc.Error = []string{"", "missing", "txt", "type-error", "two-modules", "directory"}[s.Choose("error-case", 6)]
+	lc.Error = []string{"", "missing", "txt", "type-error", "two-modules", "directory", "type-error-in-import", "type-error-in-transitive-import"}[s.Choose("error-case", 8)]
 	js, _ := json.Marshal(lc)
 	feats := []string{fmt.Sprintf("files=%v", lc.Files), fmt.Sprintf("abs=%v", lc.Abs)}
 	if lc.Error != "" {
@@ -75,6 +75,12 @@ func layoutModule() (string, error) {
 		write(filepath.Join("lay", d, "g.go"), fmt.Sprintf("package %s\n\ntype G struct {\n\tB string\n}\n", pkg))
 	}
 	write("lay/bad/f.go", "package bad\n\ntype F struct {\n\tA undefinedType\n}\n")
+	// a package that only fails inside a function body: its exported API is sound, so the packages
+	// importing it (directly: imp, through mid: imp2) type-check
+	write("lay/bad2/f.go", "package bad2\n\ntype T struct {\n\tA int\n}\n\nfunc helper() int {\n\treturn undefinedName + 1\n}\n")
+	write("lay/mid/f.go", "package mid\n\nimport \"verif.test/lay/bad2\"\n\ntype M struct {\n\tT bad2.T\n}\n")
+	write("lay/imp/f.go", "package imp\n\nimport \"verif.test/lay/bad2\"\n\ntype F struct {\n\tT bad2.T\n}\n")
+	write("lay/imp2/f.go", "package imp2\n\nimport \"verif.test/lay/mid\"\n\ntype F struct {\n\tM mid.M\n}\n")
 	write("lay/notes.txt", "not a go file\n")
 	write("other/go.mod", "module verif.test/other\n\ngo 1.23.0\n")
 	write("other/o.go", "package other\n\ntype O int\n")
@@ -109,6 +115,10 @@ func evalC17(e *Eval) {
 		args = append(args, filepath.Join(root, "..", "other", "o.go"))
 	case "directory":
 		args = append(args, "ab")
+	case "type-error-in-import":
+		args = append(args, "imp/f.go")
+	case "type-error-in-transitive-import":
+		args = append(args, "imp2/f.go")
 	}
 	var (
 		pkgs []*packages.Package
